@@ -71,6 +71,7 @@ def run(tier, seed):
     extra = [(sp, dict(o, error_tol=0.0)) for sp, o in its[:: (11 if tier == "quick" else 3)]]
     extra += [(sp, {"rule": "TSLACK", "max_time": 20}) for sp in F.large_amount_specs() + F.mixed_wiring_specs()]
     extra += stepcheck.resumed_edit_items(("team-add-target",), ks=(1, 2, 3, 4, 5))
+    extra += stepcheck.resumed_edit_items(("move-facility-in",), ks=(1, 2, 3))  # the first suitable machine delivered to the workplace while the run is stopped
     for s0, s1 in ((1.0, 0.0), (0.0, 1.0), (0.0, 0.0), (0.5, 0.5)):
         zs = {"tasks": [{"name": "T0", "work": 3.0, "nf": True}, {"name": "T1", "work": 2.0, "nf": True}], "links": [],
               "components": [{"name": "C0", "tasks": [0], "space": s0}, {"name": "C1", "tasks": [1], "space": s1}],
